@@ -19,7 +19,8 @@ class C15(Prop):
     sizes = {"quick": 4000, "thorough": 60000}
     widen_rounds = 1
     widen_factor = 1
-    gen_names = ("g_lock_table", "g_lock_flags", "g_lock_calls", "g_lock_callers", "g_lock_outside",
+    gen_names = ("g_lock_nest", "g_lock_blocking_under_lock", "g_lock_classes", "g_lock_callbacks",
+                 "g_lock_table", "g_lock_flags", "g_lock_calls", "g_lock_callers", "g_lock_outside",
                  "g_add_skip_ephemeral", "g_event_type", "event_cache.go", "data_structure.go",
                  "g_created_key_lt", "g_add_keep_old", "g_over_cap", "g_is_kind5", "g_del_is_kind5",
                  "g_del_other_author", "g_k5_tag_short", "g_k5_tag_name", "g_full_scan", "g_index_over_limit",
@@ -40,6 +41,7 @@ class C15(Prop):
             "operations of different goroutines overlap in time and one of them is an insertion that was accepted; "
             "distinct = distinct (inputs, stamps order, results)")
     trusted_base = COMMON_TRUSTED + [
+        "lock acquisitions and blocking operations (Gen/GenLockOrder.v) are recognised by a syntactic and type-based walker over handler.go, data_structure.go and event_cache.go: interface calls resolve to the package's own implementations, external library calls other than Wait, Sleep and context-taking Read/Write/Ping are assumed neither to block nor to lock",
         "PARTIAL: Go memory model and sync.RWMutex semantics (a critical section of the code behaves like the Read/Write "
         "steps of Lin.v under the lock); the race detector over the sampled schedules is supporting evidence only",
         "no access to the store's private maps outside the methods listed in the lock table: checked syntactically for the "
